@@ -254,6 +254,11 @@ def op(cfg, depth, names=None, opnd=None):
                                              's': st.one_of(st.just([]), specs(cfg, 1, 2)), 'regex': st.just(False), 'mc': st.booleans(),
                                              'n': st.sampled_from([-1, -1, 1, 2])}),
         'conv': st.fixed_dictionaries({'op': st.just('conv'), 'to': st.sampled_from(['S', 's'])}),
+        'q_format': st.fixed_dictionaries({'op': st.just('q_format'), 'how': st.integers(0, 2), 'opt': st.booleans(), 'rs': st.booleans(), 're': st.booleans(),
+                                           'spec': st.tuples(st.sampled_from(['', '', '*', ' ', '0', ':', '-', '+']), st.sampled_from(['', '', '-', '+']),
+                                                             st.sampled_from(['<', '>', '^', '']), st.sampled_from(['', '3', '9', '14']),
+                                                             st.sampled_from(['', '', ':red', ':bold;bg_blue', ':underline', ':[1;3'])).map(''.join)}),
+        'q_misc': st.fixed_dictionaries({'op': st.just('q_misc'), 'x': opd}),
     }
     return st.sampled_from(names).flatmap(lambda n: table[n])
 
